@@ -528,6 +528,10 @@ func getIDDirect(obj Object) [][]byte {
 	return id
 }
 
+// maxObjStmObjects is the largest number of objects (/N) accepted in one
+// object stream; Writer.WriteCompressed splits larger batches.
+const maxObjStmObjects = 10000
+
 type objStm struct {
 	s   *scanner
 	idx []stmObj
@@ -546,7 +550,7 @@ func getObjStm(r Getter, stream *Stream, getInt getIntFn, enc *encryptInfo) (_ *
 	}()
 
 	N, ok := stream.Dict["N"].(Integer)
-	if !ok || N < 0 || N > 10000 {
+	if !ok || N < 0 || N > maxObjStmObjects {
 		return nil, &MalformedFileError{Err: errors.New("no valid /N")}
 	}
 	n := int(N)
